@@ -133,8 +133,8 @@ theorem isPathB_reach {E : List Edge} : ∀ (p : List Nat) (a : Nat), isPathB E 
 /-- what `tools/callgraph.py` emits for one build configuration of the working tree -/
 structure Graph where
   numNodes : Nat
-  /-- mangled name of node `i` -/
-  nodeNames : List String
+  /-- mangled name of node `i`, coded as one number (`name! "malloc"`) -/
+  nodeNames : List Nat
   /-- call edges (caller, callee) in chunks -/
   edgeChunks : List (List Edge)
   entries : List Nat
@@ -204,38 +204,99 @@ theorem Graph.safe_of_cert (g : Graph) (h : g.CertOK) : g.Safe := by
   have hin : inMask g.cert n := closed_contains_pathN h.entries h.closed k e n he (pathR_sub hsub k e n hp)
   exact ⟨fun hf => h.avoids n hf hin, fun hx => h.listed n hx hin⟩
 
-/-! ### names: tying the node numbers to symbols -/
+/-! ### names: tying the node numbers to symbols
+
+String operations are very slow in the kernel, so a name is ONE natural number: the digit 1 followed by the bytes
+of the (mangled) name, read as a number in base 256 — an injective coding.  `name! "malloc"` is notation for that
+number, `0x016d616c6c6f63` (computed when the file is elaborated). -/
+
+/-- `name! "abc"` = `0x01616263`: a 1 followed by the bytes of the string literal, base 256 -/
+syntax "name! " str : term
+macro_rules
+  | `(name! $s) => do
+    let k := s.getString.toUTF8.foldl (fun a b => a * 256 + b.toNat) 1
+    `(($(Lean.Syntax.mkNumLit (toString k)) : Nat))
+
+example : name! "malloc" = 0x016d616c6c6f63 := rfl
+example : name! "" = 1 := rfl
+
+abbrev Name := Nat
+
+/-- membership test by `Nat.beq` (evaluated natively by the kernel) -/
+def memB (xs : List Nat) (n : Nat) : Bool := xs.any (Nat.beq n)
+
+theorem memB_sound {xs : List Nat} {n : Nat} (h : memB xs n = true) : n ∈ xs := by
+  obtain ⟨x, hx, hb⟩ := List.any_eq_true.mp h
+  have : n = x := Nat.eq_of_beq_eq_true hb
+  exact this ▸ hx
+
+theorem memB_complete {xs : List Nat} {n : Nat} (h : n ∈ xs) : memB xs n = true :=
+  List.any_eq_true.mpr ⟨n, h, Nat.beq_refl n⟩
+
+/-- some node at position `off + j` of the list is named `s` and lies in `set` -/
+def hasNamedIn (s : Name) (set : List Nat) : List Name → Nat → Bool
+  | [], _ => false
+  | k :: ks, i => (Nat.beq k s && memB set i) || hasNamedIn s set ks (i + 1)
+
+/-- every node of the list (numbered from `off`) whose name is in `req` lies in `set` -/
+def onlyNamedIn (req : List Name) (set : List Nat) : List Name → Nat → Bool
+  | [], _ => true
+  | k :: ks, i => (!memB req k || memB set i) && onlyNamedIn req set ks (i + 1)
 
 /-- every name of `req` is the name of a node that is in `set` -/
-def namedAllInB (names : List String) (req : List String) (set : List Nat) : Bool :=
-  req.all fun s => decide (names.idxOf s < names.length) && set.contains (names.idxOf s)
+def namedAllInB (names : List Name) (req : List Name) (set : List Nat) : Bool :=
+  req.all fun s => hasNamedIn s set names 0
 
 /-- every node whose name is in `req` is in `set` -/
-def namedOnlyInB (names : List String) (req : List String) (set : List Nat) : Bool :=
-  (List.range names.length).all fun i => !req.contains (names.getD i "") || set.contains i
+def namedOnlyInB (names : List Name) (req : List Name) (set : List Nat) : Bool :=
+  onlyNamedIn req set names 0
 
-theorem namedAllInB_sound {names req : List String} {set : List Nat} (h : namedAllInB names req set = true) :
+theorem hasNamedIn_sound {s : Name} {set : List Nat} : ∀ (names : List Name) (off : Nat),
+    hasNamedIn s set names off = true → ∃ j, names[j]? = some s ∧ off + j ∈ set := by
+  intro names
+  induction names with
+  | nil => intro off h; simp [hasNamedIn] at h
+  | cons k ks ih =>
+    intro off h
+    simp only [hasNamedIn, Bool.or_eq_true, Bool.and_eq_true] at h
+    cases h with
+    | inl h1 =>
+      have hk : k = s := Nat.eq_of_beq_eq_true h1.1
+      exact ⟨0, by simp [hk], by simpa using memB_sound h1.2⟩
+    | inr h2 =>
+      obtain ⟨j, hj, hm⟩ := ih (off + 1) h2
+      exact ⟨j + 1, by simpa using hj, by have : off + (j + 1) = off + 1 + j := by omega
+                                          rw [this]; exact hm⟩
+
+theorem onlyNamedIn_sound {req : List Name} {set : List Nat} : ∀ (names : List Name) (off : Nat),
+    onlyNamedIn req set names off = true → ∀ j s, names[j]? = some s → s ∈ req → off + j ∈ set := by
+  intro names
+  induction names with
+  | nil => intro off _ j s hj; simp at hj
+  | cons k ks ih =>
+    intro off h j s hj hs
+    simp only [onlyNamedIn, Bool.and_eq_true, Bool.or_eq_true, Bool.not_eq_true'] at h
+    cases j with
+    | zero =>
+      have hk : k = s := by simpa using hj
+      cases h.1 with
+      | inl h1 => rw [hk, memB_complete hs] at h1; cases h1
+      | inr h1 => simpa using memB_sound h1
+    | succ j =>
+      have hj' : ks[j]? = some s := by simpa using hj
+      have := ih (off + 1) h.2 j s hj' hs
+      have e : off + (j + 1) = off + 1 + j := by omega
+      rw [e]; exact this
+
+theorem namedAllInB_sound {names req : List Name} {set : List Nat} (h : namedAllInB names req set = true) :
     ∀ s ∈ req, ∃ i, names[i]? = some s ∧ i ∈ set := by
   intro s hs
-  have := List.all_eq_true.mp h s hs
-  simp only [Bool.and_eq_true, decide_eq_true_eq] at this
-  obtain ⟨hlt, hc⟩ := this
-  refine ⟨names.idxOf s, ?_, by simpa using hc⟩
-  have hmem : s ∈ names := List.idxOf_lt_length_iff.mp hlt
-  simp [List.getElem?_eq_getElem hlt]
+  obtain ⟨j, hj, hm⟩ := hasNamedIn_sound names 0 (List.all_eq_true.mp h s hs)
+  exact ⟨j, hj, by simpa using hm⟩
 
-theorem namedOnlyInB_sound {names req : List String} {set : List Nat} (h : namedOnlyInB names req set = true) :
+theorem namedOnlyInB_sound {names req : List Name} {set : List Nat} (h : namedOnlyInB names req set = true) :
     ∀ i s, names[i]? = some s → s ∈ req → i ∈ set := by
   intro i s hi hs
-  have hlt : i < names.length := by
-    rcases Nat.lt_or_ge i names.length with h1 | h1
-    · exact h1
-    · simp [List.getElem?_eq_none h1] at hi
-  have := List.all_eq_true.mp h i (List.mem_range.mpr hlt)
-  have hget : names.getD i "" = s := by simp [List.getD, hi]
-  rw [hget] at this
-  have hc : req.contains s = true := by simpa using hs
-  rw [hc] at this
-  simpa using this
+  simpa using onlyNamedIn_sound names 0 h i s hi hs
 
 end Rtosc.CallGraph
